@@ -78,6 +78,9 @@ class MessageExtractor:
                 code = node.code.code
             elif isinstance(node, parsetree.Expression):
                 code = node.code.code
+                if node.escapes:
+                    # the filters, which may be calls with arguments
+                    code = "%s | %s" % (code, node.escapes)
             else:
                 continue
 
